@@ -19,6 +19,9 @@ pub fn topo(name: &str, w: usize, d: usize, sparse: bool) -> (usize, Vec<PeerSpe
         "2+2" => (4, vec![mk(10, vec![0, 1]), mk(11, vec![2, 3])]),
         "1+1+1+1" => (4, vec![mk(10, vec![0]), mk(11, vec![1]), mk(12, vec![2]), mk(13, vec![3])]),
         "2+1+1" => (4, vec![mk(10, vec![0, 1]), mk(11, vec![2]), mk(12, vec![3])]),
+        "2" => (2, vec![mk(10, vec![0, 1])]),
+        "1" => (1, vec![mk(10, vec![0])]),
+        "3+1" => (4, vec![mk(10, vec![0, 1, 2]), mk(11, vec![3])]),
         _ => panic!("unknown topology {name}"),
     }
 }
@@ -109,6 +112,9 @@ fn quick_grid() -> Vec<GridPoint> {
         GridPoint { t: "1+2", w: 8, d: 0, sparse: false, pred: RepeatLast, prog: Runs, lat: 1 },
         GridPoint { t: "1+1+1+1", w: 3, d: 0, sparse: false, pred: Default, prog: Changing, lat: 1 },
         GridPoint { t: "2+2", w: 8, d: 0, sparse: false, pred: RepeatLast, prog: Runs, lat: 2 },
+        // unusual but legal: delay far larger than the window; three players on one peer
+        GridPoint { t: "1+1", w: 1, d: 16, sparse: false, pred: RepeatLast, prog: Changing, lat: 1 },
+        GridPoint { t: "3+1", w: 12, d: 7, sparse: true, pred: Default, prog: Runs, lat: 1 },
     ]
 }
 
@@ -269,6 +275,36 @@ pub fn core_parts(rep: &mut Report, props: &[&str], checks: u32) {
         let out = explore(&scns, &cfg, judge);
         rep.absorb("C: long histories (background loss 1/7, delay 1/11, stall 1/13 throughout) with a k<=1 fault window placed across input-ring wraps", out, props,
             json!({"k": 1, "window_at_rounds": wraps, "configs": scns.len()}));
+    }
+    // ---- part L: long histories, no choice points: every ring wraps several times
+    {
+        let rounds = if thorough { 4000 } else { 1200 };
+        let mut scns = Vec::new();
+        for g in &quick_grid() {
+            for bg in 0..2 {
+                let mut s = gp_scn("core-verylong", g);
+                s.background = if bg == 0 { Background { loss_every: 7, delay_every: 11, stall_every: 13 } } else { Background { loss_every: 3, delay_every: 5, stall_every: 29 } };
+                s.name = format!("{} {rounds} rounds background={bg}", s.name);
+                s.horizon = rounds;
+                s.probe = 40;
+                s.checks = checks;
+                scns.push(s);
+            }
+        }
+        // all-local hosts with a spectator, and a single player with a spectator
+        for t in ["2", "1"] {
+            for w in [0usize, 2, 8] {
+                let mut s = base_scn("core-verylong-local-host", t, w, 1, false, Pred::RepeatLast, Program::Changing, 1);
+                s.specs.push(SpecSpec::new(20, s.peers[0].addr));
+                s.horizon = rounds;
+                s.probe = 20;
+                s.checks = checks;
+                scns.push(s);
+            }
+        }
+        let cfg = ExploreCfg { k: Some(0), wall: Duration::from_secs(if thorough { 600 } else { 40 }), ..Default::default() };
+        let out = explore(&scns, &cfg, judge);
+        rep.absorb("L: long histories under periodic background loss/delay/stalls (every ring buffer wraps many times), incl. all-local hosts with a spectator", out, props, json!({"k": 0, "rounds": rounds, "scenarios": scns.len()}));
     }
     // ---- part D: relative speeds: one peer ticks every 2nd / 3rd round
     {
